@@ -7,6 +7,7 @@ import ScVerif.C12.Lin
 import ScVerif.C12.Reentrant
 import ScVerif.C12.PumpTrace
 import ScVerif.C12.Served
+import ScVerif.C12.Naming
 /-!
 Driver handler for C12: parses one request line, runs the model, prints the canonical answer.
 
@@ -24,6 +25,7 @@ nrecv <default> <transport> <m0> <wire>                  absentNameReplaceServer
 srv   <default> <fb> <fac> <ops> <method> U <wire> <childout>       history, then a unary call behind the interceptor
 srv   <default> <fb> <fac> <ops> <method> S <transport> <m0> <wire> <childscript> <callerscript>   … a stream call
 ```
+gen   <dir> <file> <service>                              what the two generators emit for a service (path type path type)
 Transports: `ow` overwrite, `mg` merge, `f<e>` fail, `of<e>` overwrite then fail; `<m0>` = `z` is the zero message.
 Callback kinds (shared with the Go harness, `callbackOf`): `has get rm add sib mix undo`.
 Factory kinds (shared with the Go harness): `none new err nil both pfx odd`; the fallback makes
@@ -248,6 +250,11 @@ def parseM0? (s : String) (wire : Msg) : Option Msg :=
 
 def handle? (toks : List String) : Option String :=
   match toks with
+  | ["gen", dir, file, svc] =>
+    let r := emitRouter dir.toList file.toList svc.toList
+    let w := emitWrapper dir.toList file.toList svc.toList
+    some (String.ofList r.path ++ " " ++ tilde (String.ofList r.typeName) ++ " " ++
+      String.ofList w.path ++ " " ++ tilde (String.ofList w.typeName))
   | ["nrecv", dflt, tr, m0, wire] => do
     let t ← parseTransport? tr
     let wire ← parseMsg? wire
